@@ -99,6 +99,7 @@ fn dispatch(op: &str, args: &[&str]) -> String {
         "bown" => builder::op_bown(args),
         "media_preset" => builder::op_media_preset(args),
         "media_twice" => op_media_twice(args),
+        "master_twice" => op_master_twice(args),
         "media_remove" => op_media_remove(args),
         "eq_media" => op_eq::<Media>(args),
         "eq_master" => op_eq::<Master>(args),
@@ -358,6 +359,26 @@ fn op_media_twice(args: &[&str]) -> String {
         Some(Err(_)) => ERR.to_string(),
         Some(Ok(x)) => value_result::<Media>(&x, None, t2.len()),
     }
+}
+
+/// `master_twice TEXT1 TEXT2`: `MasterPlaylist::try_from(TEXT1)` in this thread (its
+/// result, `Ok` or `Err`, is dropped), then `MasterPlaylist::try_from(TEXT2)`.
+/// Prints the second result as the `master` op does.
+fn op_master_twice(args: &[&str]) -> String {
+    let (Some(t1), Some(t2)) = (text_arg(args, 0), text_arg(args, 1)) else {
+        return BADINPUT.to_string();
+    };
+    if args.len() != 2 {
+        return BADINPUT.to_string();
+    }
+    if guard(|| {
+        let _ = MasterPlaylist::try_from(t1.as_str());
+    })
+    .is_none()
+    {
+        return PANIC.to_string();
+    }
+    roundtrip::<Master>(&t2, None)
 }
 
 /// `media_remove TEXT I1 I2 ...`: `MediaPlaylist::try_from(TEXT)`, then
